@@ -932,6 +932,8 @@ func (c *ctx) typeKeyed() {
 // Rules is the G-rule catalogue.
 var Rules = []report.Rule{
 	{ID: "G27", Floor: 3, Props: []string{"C14"}, Text: "the sentinel types of output-less tasks and of predicates are keys of the same structural type map as user types: the two families differ in their field type, and each member is named after the family's counter, incremented unconditionally first"},
+	{ID: "G28", Floor: 2, Props: []string{"C14"}, Text: "memo / visited-set keys of the validators' graph searches are total over the nodes: the key is the node (or its structural type) itself, or a field that every constructor of the node sets"},
+	{ID: "G29", Floor: 4, Props: []string{"C14", "C13"}, Text: "every structural classification of a user-supplied go/types.Type (slice, map, function, pointer) is made on its underlying type, so named types of that kind are accepted like unnamed ones"},
 	{ID: "G26", Floor: 1, Props: []string{"C14", "C13"}, Text: "the depth-first cycle search writes its memo only after a node's subtree was searched, or else tests the path first with the memo's key"},
 	{ID: "G25", Floor: 3, Props: []string{"C20", "C13"}, Text: "package-level names generated in modifier mode are injective in (file, line, column): every integer component of the name is preceded by a non-digit literal separator"},
 	{ID: "G1", Floor: 6, Props: []string{"C17"}, Text: "every range over a map / typeutil.Map.Keys() only fills sets, emits diagnostics, or builds slices that are sorted before any other use"},
@@ -987,5 +989,7 @@ func Run(repo *load.Repo, s *report.Sink) error {
 	c.generatedNames()
 	c.cycleSearch()
 	c.sentinelFamilies()
+	c.memoKeys()
+	c.structuralAssertions()
 	return nil
 }
